@@ -73,7 +73,7 @@ impl<'a, K: ToUniqueIndex, V: Clone> vstd::std_specs::convert::FromSpecImpl<&'a 
 // R-FOREACH: `for (key, val) in value` -> the same loop with a named iterator (for the invariant); the pattern is bound in the body
 //@rw R-FOREACH
 //@old
-for (key, val) in value {
+for ($1, $2) in value {
 //@new
 let ghost vx_all = value@;
         for vx_pair in vx_it: value
@@ -84,7 +84,7 @@ let ghost vx_all = value@;
         {
             let ghost vx_i = vx_it.index@ as int;
             proof { assert(vx_all.take(vx_i + 1).drop_last() =~= vx_all.take(vx_i)); assert(vx_all.take(vx_i + 1).last() == vx_all[vx_i]); }
-            let (key, val) = vx_pair;
+            let ($1, $2) = vx_pair;
 //@proof afterloop #1
         proof { assert(vx_all.take(vx_all.len() as int) =~= vx_all); }
 //@end
@@ -101,7 +101,7 @@ let ghost vx_all = value@;
 // R-FOREACH: `for (key, val) in value` (slice by reference) -> index loop binding the same pattern; R-CALL: V::clone -> A-DERIVE stand-in
 //@rw R-FOREACH
 //@old
-for (key, val) in value {
+for ($1, $2) in value {
 //@new
 let mut vx_k: usize = 0;
         while vx_k < value.len()
@@ -112,13 +112,13 @@ let mut vx_k: usize = 0;
             decreases value.len() - vx_k,
         {
             proof { assert(value@.take(vx_k + 1).drop_last() =~= value@.take(vx_k as int)); assert(value@.take(vx_k + 1).last() == value@[vx_k as int]); }
-            let (key, val) = &value[vx_k];
+            let ($1, $2) = &value[vx_k];
             vx_k = vx_k + 1;
 //@rw R-CALL
 //@old
-val.clone()
+map.insert($1, $2.clone());
 //@new
-vx_clone(val)
+map.insert($1, vx_clone($2));
 //@proof afterloop #1
         proof { assert(value@.take(value@.len() as int) =~= value@); }
 //@end
